@@ -55,5 +55,13 @@ CHECKS += [
          technique="fault enumeration over external call boundaries in the cluster simulation (property-based sampling in quick, exhaustive grid in thorough) with an end-state oracle"),
 ]
 
+CHECKS += [
+    dict(property_id="C06", category="exploration",
+         text="Generated request histories (operator, worker-written and automatic requests, competing initiators, aborts and abort+refile also while an attempt is in flight, sticky MySQL-side faults that keep attempts failing, light maintenance, time advances across the timeout) are processed by the real manager loop in the simulation; an oracle over the ordered log of writes and deletes of switch / last_switch / last_rejected_switch checks the life cycle of every request (identity = initiated_by + initiated_at), and per completed manager iteration the bound, no-re-judging and success-implies-master clauses. Scripts of the three defects found and repaired are replayed on every run.",
+         design_ref="DESIGN.md section 4, C06",
+         note="Trusted: as C02; an iteration's window is delimited at the instant its body returns. Not reached: a request filed between the manager's own 'no request' read and IssueFailover inside one non-blocking stretch (stepper limit). Real CLI entry points are not driven (they need a real TCP dial); the operator model does the same create-if-absent writes.",
+         technique="stateful property-based testing in the cluster simulation with a history oracle over the coordination-key log"),
+]
+
 _claimed = {c["property_id"] for c in CHECKS}
 NOT_APPLICABLE = [dict(property_id=p, reason="check not built yet in this revision (framework under construction; see DESIGN.md build order)") for p in ALL if p not in _claimed]
